@@ -230,6 +230,9 @@ func checkC10(t *rapid.T) {
 		eng.G.Count("C10/child-process-executions", 1)
 	}
 	eng.G.Eval()
+	for f := range w.Flags {
+		eng.G.Label(f)
+	}
 	eng.G.Count("steps", len(tr.Steps))
 	eng.G.Count("C10/executions", 7)
 	nt := restartsInside > 0 && acceptedAfter >= 5 && (w.Accepted["anchor"]+w.Accepted["attest"]+w.Accepted["registerResolver"]+w.Accepted["defineResolver"]) > 0
